@@ -1,0 +1,11 @@
+//go:build !verif
+
+package filecache
+
+import "io"
+
+// No-op twins of the verification hooks in verif_crash.go (build tag verif).
+
+func verifCrashPoint(string) {}
+
+func verifCrashReader(content io.Reader) io.Reader { return content }
